@@ -1228,7 +1228,7 @@ name_parse(u8 *packet, int length, int *idx, char *name_out, int name_out_len) {
 		u8 label_len;
 		GET8(label_len);
 		if (!label_len) break;
-		if (label_len & 0xc0) {
+		if ((label_len & 0xc0) == 0xc0) {
 			u8 ptr_low;
 			GET8(ptr_low);
 			if (name_end < 0) name_end = j;
